@@ -844,6 +844,29 @@ def gen_c08_case(rnd, steps):
     return Case(sh.lines, 'c08-malformed', {'cls': sh.cls})
 
 
+def load_corpus(pid):
+    """tools/corpus/<pid>/*.case: minimised witnesses, always run first.  `#@ <label>` labels the class of the
+    invalid argument of the script line that follows it (used by the signature)."""
+    import os
+    d = os.path.join(os.path.dirname(os.path.dirname(os.path.abspath(__file__))), 'corpus', pid)
+    out = []
+    if os.path.isdir(d):
+        for f in sorted(os.listdir(d)):
+            lines, cls, pending = [], {}, None
+            for l in open(os.path.join(d, f)):
+                l = l.rstrip('\n')
+                if l.startswith('#@ '):
+                    pending = l[3:].strip()
+                elif l.strip() and not l.startswith('#'):
+                    if pending:
+                        cls[len(lines)] = pending
+                        pending = None
+                    lines.append(l)
+            if lines:
+                out.append(Case(lines, 'corpus:' + f, {'cls': cls}))
+    return out
+
+
 # ------------------------------------------------------------------------------------------------
 # comparison of answer lines, signatures
 # ------------------------------------------------------------------------------------------------
